@@ -204,12 +204,22 @@ def run(ctx):
     for l, loc in enumerate(dec.locals):
         if "cursor::Cursor" in loc["ty"] and dec.is_object(l):
             cur = l
+    if cur is None:
+        # a byte slice is itself a reader (`impl Read for &[u8]` consumes from the front): `let mut rest: &[u8] = blob; rest.read_u16()..`
+        for bb, t in dec.calls():
+            if callee_name(t["fn"].get("path", "")).startswith("read") and t["arg_tys"] and t["arg_tys"][0] == "&mut &[u8]":
+                a0 = dev.call_args(bb)[0]
+                if a0[0] == "obj":
+                    cur = a0[2]
     reads = []
     if cur is not None:
         order2 = {b: i for i, b in enumerate(dec.rpo())}
         for (b, c, argi, ap) in sorted(dev.events_on(cur), key=lambda e: order2[e[0]]):
             if argi == 0 and callee_name(c).startswith("read"):
                 reads.append((callee_name(c), b, dev.call_args(b)))
+            elif argi == 0 and callee_name(c) in ("to_vec", "to_owned") and "&[u8]" in dec.locals[cur]["ty"]:
+                # the unread remainder of a slice reader, copied: what read_to_end delivers
+                reads.append(("read_to_end", b, dev.call_args(b)))
     rk = [x[0] for x in reads]
     ctx.check("agreement", "read-order", rk == ["read_u16", "read_u16", "read_exact", "read_exact", "read_to_end"], "decrypt reads u16, u16, wrapped DEK, nonce, rest",
               "decrypt reads %s" % rk, ctx.loc(dec))
